@@ -83,11 +83,16 @@ fn single(idx: u64, rng: &mut Rng, mon: &mut Mon) {
     } else {
         let mut from = [0.0; 6];
         let mut to = [0.0; 6];
+        let all_narrow = rng.usize(8) == 0;
+        if all_narrow {
+            mon.count("limit_sets_with_a_single_surviving_branch");
+        }
         for j in 0..6 {
             // classes whose centres stay inside the documented +-2pi range (with the sentinel the
             // centres play the role of the previous vector)
             // (wrap-around ranges written with from > pi have their centre beyond 2pi, up to 3pi)
-            let cls = *rng.pick(&[1, 1, 5, 6, 2, 0, 3, 4, 9, 9]);
+            // (one limit set in eight windows EVERY joint narrowly around q: a single IK branch survives)
+            let cls = if all_narrow { 0 } else { *rng.pick(&[1, 1, 5, 6, 2, 0, 3, 4, 9, 9]) };
             let (f, t) = limit_pair(rng, cls, q[j]);
             from[j] = f;
             to[j] = t;
